@@ -215,7 +215,7 @@ def main(ctx):
             cases.append(family.Case(corpus.read(rel), lang, c_domain({n: v}, lang), {'kind': 'corpus', 'file': rel, 'cfgkind': 'single-sweep'}))
     # full single-option sweep on fixed generated programs: every setting of every option of the domain, once on a rich C program
     # (every statement kind, macros, conditional groups) and every third one on a C++ translation unit made of all snippets
-    fixed_c = layout.render(gen_c.fixed_program(2, junk_brackets=False), random.Random(7), 'C', dict(p_cmt=0.05, bs_cmt=0.0))[0].encode()
+    fixed_c = layout.render(gen_c.fixed_program(7, junk_brackets=False, pp_split=True), random.Random(7), 'C', dict(p_cmt=0.05, bs_cmt=0.0))[0].encode()
     cpp_toks = []
     for i in range(len(gen_cpp.SNIPPETS)):
         cpp_toks += gen_cpp.tokens_of(gen_cpp.SNIPPETS[i], '%d' % i, False)
